@@ -149,6 +149,16 @@ def oracle(case, out):
         return None
     # float branch: last displayed digit has weight 10^q
     q = (int((es or "") + ed) if ed else 0) - len(fp)
+    if shown != 0:
+        # zeros that only pad an integer-looking text up to the units position (e.g. 949.99 with one
+        # significant digit -> 900) are not displayed significant digits
+        lead = len(str(abs(shown.numerator) // shown.denominator)) - 1 if abs(shown) >= 1 else \
+            -len(str(shown.denominator // abs(shown.numerator)))
+        while Fraction(10) ** lead > abs(shown):
+            lead -= 1
+        while Fraction(10) ** (lead + 1) <= abs(shown):
+            lead += 1
+        q = max(q, lead - max(1, min(sig, 255)) + 1)
     half = Fraction(10) ** q / 2
     err = abs(shown - exact)
     if err <= half:
